@@ -297,14 +297,26 @@ func judge(sc Scen, base State, final State, snap string, acks map[int]bool, wor
 		}
 		ad, ok := after.Tags[t]
 		if !ok && fb {
-			return &judged{"rerun-differs-referrers", fmt.Sprintf("after repeating the interrupted operation the referrers tag %s is absent, the uninterrupted run records {%s} under it", t[:14], strings.Join(final.Lists[d], "+"))}
+			return &judged{"rerun-differs-referrers none-recorded", fmt.Sprintf("after repeating the interrupted operation the referrers tag %s is absent, the uninterrupted run records {%s} under it", t[:14], strings.Join(final.Lists[d], "+"))}
 		}
 		if !ok {
 			return &judged{"rerun-differs", fmt.Sprintf("after repeating the interrupted operation tag %s is absent, the uninterrupted run has it [%s vs %s]", t, after.Canon(), final.Canon())}
 		}
 		if fb {
 			if strings.Join(after.Lists[ad], "+") != strings.Join(final.Lists[d], "+") {
-				return &judged{"rerun-differs-referrers", fmt.Sprintf("after repeating the interrupted operation the referrers recorded under %s are {%s}, the uninterrupted run records {%s}", t[:14], strings.Join(after.Lists[ad], "+"), strings.Join(final.Lists[d], "+"))}
+				// the key tells a referrer left unrecorded (the recorded finding) from one recorded that the
+				// uninterrupted run does not have
+				kind := "fewer-recorded"
+				have := map[string]bool{}
+				for _, x := range final.Lists[d] {
+					have[x] = true
+				}
+				for _, x := range after.Lists[ad] {
+					if !have[x] {
+						kind = "other-recorded"
+					}
+				}
+				return &judged{"rerun-differs-referrers " + kind, fmt.Sprintf("after repeating the interrupted operation the referrers recorded under %s are {%s}, the uninterrupted run records {%s}", t[:14], strings.Join(after.Lists[ad], "+"), strings.Join(final.Lists[d], "+"))}
 			}
 		} else if ad != d {
 			return &judged{"rerun-differs", fmt.Sprintf("after repeating the interrupted operation tag %s resolves to %s, the uninterrupted run gives %s", t, ad[7:15], d[7:15])}
